@@ -86,7 +86,8 @@ type zzxABI struct {
 	commits, reverts int
 	commitsOK int // Commit calls that succeeded
 	commitExpected []byte
-	events       []*blockchain.Event
+	events       []*blockchain.Event // returned by AfterTransactionsExecute
+	eventsBefore, eventsTx []*blockchain.Event // returned by BeforeTransactionsExecute / every ExecuteTransaction
 }
 
 var zzxErr = errors.New("zzx: scripted application failure")
@@ -136,7 +137,7 @@ func (a *zzxABI) BeforeTransactionsExecute(req *labi.BeforeTransactionsExecuteRe
 	if err := a.step("BeforeTransactionsExecute"); err != nil {
 		return nil, err
 	}
-	return &labi.BeforeTransactionsExecuteResponse{}, nil
+	return &labi.BeforeTransactionsExecuteResponse{Events: a.eventsBefore}, nil
 }
 func (a *zzxABI) AfterTransactionsExecute(req *labi.AfterTransactionsExecuteRequest) (*labi.AfterTransactionsExecuteResponse, error) {
 	if err := a.step("AfterTransactionsExecute"); err != nil {
@@ -154,7 +155,7 @@ func (a *zzxABI) ExecuteTransaction(req *labi.ExecuteTransactionRequest) (*labi.
 	if err := a.step("ExecuteTransaction"); err != nil {
 		return nil, err
 	}
-	return &labi.ExecuteTransactionResponse{Result: labi.TxExecuteResultSuccess}, nil
+	return &labi.ExecuteTransactionResponse{Result: labi.TxExecuteResultSuccess, Events: a.eventsTx}, nil
 }
 func (a *zzxABI) Commit(req *labi.CommitRequest) (*labi.CommitResponse, error) {
 	a.commits++
